@@ -7,7 +7,7 @@ note = " ".join(sys.argv[4:])
 src = "/tmp/wt/out/%s/%s" % (pid, m)
 dst = "/verif/seeded/%s_%s" % (pid, m)
 os.makedirs(dst, exist_ok=True)
-for f in glob.glob(src + "/*"):
+for f in [x for x in glob.glob(src + "/*") if os.path.isfile(x)]:
     if os.path.basename(f).startswith("confirm_"):
         continue
     shutil.copy(f, dst)
